@@ -30,6 +30,26 @@ CHECKS["C17"] = dict(level="other", engine="mirvc",
     technique="symbolic execution of the compiler's MIR with an SMT solver (z3, cross-checked with cvc5); counterexamples replayed through the real binary",
     ref="DESIGN.md §2 C17, §4", note=MIR_NOTE)
 
+def mir_check(text, ref):
+    return dict(level="other", engine="mirvc", text=text, ref=ref, note=MIR_NOTE,
+                technique="symbolic execution of the compiler's MIR with an SMT solver (z3, cross-checked with cvc5); candidates replayed through the real binary")
+
+CHECKS["C05"] = mir_check("Necessary conditions of all-or-nothing decided over the MIR of both drivers and cmd_push: rollback of the failing patch precedes any save and ends the loop; "
+    "the drivers return applied + skipped == len (checked arithmetic proved safe with Enumerate::next modelled); applied-patches receives exactly series[0..applied], only on Ok; "
+    "rejects only for the rejected patch; the parallel stop test is strict. Tree equality on disk is outside (file I/O); in-memory undo is C04.", "DESIGN.md §2 C05")
+CHECKS["C08"] = mir_check("Backup window decided for all 64-bit final_patch / backup-count values over the MIR of both drivers: the backup block runs iff !dry_run && (always || (onfail && stopped early)), "
+    "down_to_index == final_patch -. n (All => 0), no backup below the window, a rename gets two backups, applied-patches gets exactly the applied prefix. Bytes under .pc/** are I/O: outside.", "DESIGN.md §2 C08")
+CHECKS["C10"] = mir_check("Guard lemma: a fixpoint over the MIR call graph computes the functions that may reach a file-system writing primitive although dry_run is true; "
+    "each driver leaves that set only when z3 shows every call into it unreachable under dry_run == true (and reachable without it). Outcome equality with a real run is outside.", "DESIGN.md §2 C10")
+CHECKS["C15"] = mir_check("Ordering lemma on save_modified_file's MIR: every path reaching File::create for a file that existed has called remove_file before, which succeeded or failed with NotFound. "
+    "Inode identity and untouched files are outside (I/O).", "DESIGN.md §2 C15")
+CHECKS["C18"] = mir_check("Ok-continuation lemma: applied-patches is written only when the driver returned Ok, an Err never becomes Ok in cmd_push, and main returns status 0 only for Ok(true). "
+    "That every individual write error is propagated needs syscall fault injection: outside this technique.", "DESIGN.md §2 C18")
+CHECKS["C13"] = dict(level="model_checking", engine="kani+mirvc",
+    text="Guards decided over MIR (a reject file is created only for a file patch of the rejected patch whose report failed; the failing patch's other file patches are still attempted; "
+         "rollback and rejects precede save); the writer part (write_rej_to emits exactly the failed hunks) is decided by Kani where it fits.",
+    technique="bounded model checking (Kani/CBMC) of the reject writer plus SMT-decided guard VCs over the drivers' MIR", ref="DESIGN.md §2 C13", note=KANI_NOTE + " " + MIR_NOTE)
+
 NOT_APPLICABLE = {
  "C06": "thread interleavings over rayon's pool and real files: Kani does not model threads, and a hand model of the workers would not be the real code (DESIGN.md §2 C06)",
  "C09": "multi-invocation histories through files on disk (.pc/applied-patches read back by a later process): no pure core beyond the range arithmetic claimed under C17",
